@@ -93,8 +93,12 @@ def machine(draw, max_w=8, max_h=8, resources=None, faults=True,
     if resources is None:
         resources = draw(resources_strategy())
     exc = []
+    live = [c for c in chips if c not in set(map(tuple, dead_chips))]
     if exceptions and draw(st.booleans()):
-        for c in draw(st.lists(st.sampled_from(chips), max_size=4,
+        # exceptions are only listed for working chips (an exception entry
+        # for a dead chip makes global reservations raise IndexError; not
+        # asserted against, see DESIGN.md observations)
+        for c in draw(st.lists(st.sampled_from(live), max_size=4,
                                unique=True)):
             exc.append([c[0], c[1], dict(
                 (k, draw(st.one_of(st.just(0), st.integers(0, v + 2))))
